@@ -168,12 +168,13 @@ def profile_functions(fn, repo=REPO):
 
 
 def explore_case(h, body, logic=None, incremental=True, const_hash=False, base=(), max_paths=None, time_budget=None,
-                 timeout_ms=60000):
+                 timeout_ms=60000, concretize_div=0):
     """standard worker-side driver: explore body() on a fresh engine state; exceptions escaping body are reported by body"""
     ENG.__init__()
     ENG.logic = logic
     ENG.incremental = incremental
     ENG.const_hash = const_hash
+    ENG.concretize_div = concretize_div
     ENG.base = list(base)
     ENG.timeout_ms = timeout_ms
     ENG.seed = int(os.environ.get("VERIF_SEED", "0") or 0)
